@@ -11,6 +11,8 @@ PLAN = dict(
          "equal the first one byte for byte; in assembly code (not in comments) generated label numbers are renumbered by first occurrence "
          "before comparing. Non-trivial: every case; tags: number of type declarations, number of printable stages",
     explanation="theorems: hash sets of linearization matter only by membership; ordered sets of the back ends are insertion-order independent; "
+                "the sorted lists of type instances emitted by the checker are a function of the SET of instances (any enumeration order of the instance table, "
+                "any order in which definitions created the instances; every accepted program's lists are strictly sorted by String::cmp); "
                 "process-level determinism is observed, the harness computes the verdict and the model runner relays it",
     assumptions=["fresh processes get fresh std hash seeds (RandomState)", "label renumbering in the comparison is the property's own allowance"],
     trusted=["harness/src/cmd_det.rs (comparison and label normalisation)"],
